@@ -78,11 +78,23 @@ func (b *Box) Close() {
 	b.Engine.Close()
 	// lindb never stops the three worker pools of a database; a harness that opens many engines would leak nine
 	// goroutines per database
+	// Stop waits until the gauge of live workers reads 0; the gauge is registered under the database's NAME, so a
+	// second database object of that name (a reopen that did not stop the pools of the object before it) makes it
+	// wait for ever. Every reopen of the box goes through Close for that reason; the wait is bounded all the same
+	// (what is left behind is a leak of idle goroutines, nothing the oracles read).
 	if b.DB != nil {
 		if p := b.DB.ExecutorPool(); p != nil {
-			p.Filtering.Stop()
-			p.Grouping.Stop()
-			p.Scanner.Stop()
+			done := make(chan struct{})
+			go func() {
+				p.Filtering.Stop()
+				p.Grouping.Stop()
+				p.Scanner.Stop()
+				close(done)
+			}()
+			select {
+			case <-done:
+			case <-time.After(10 * time.Second):
+			}
 		}
 	}
 }
